@@ -31,7 +31,7 @@ PROPS = {
     "C05": {"theorems": ["C05_rule_names_match_code_partial", "C05_no_rule_for_nondifferentiable_partial", "C05_missing_binary_rule_is_error_partial"], "modes": [{"name": "c05", "quick_n": 400, "thorough_n": 3000, "shard": 30}]},
     "C09": {"theorems": ["C09_index_checked_first_partial", "C09_order_zero_partial"], "modes": [{"name": "c09", "quick_n": 200, "thorough_n": 1500, "shard": 20}]},
     "C18": {"theorems": ["C18_condition_and_branch_rules_partial", "C18_rule_semantics_partial"], "modes": [{"name": "c18", "quick_n": 300, "thorough_n": 2500, "shard": 30}]},
-    "C06": {"theorems": ["C06_tokenizer_total_partial", "C06_preconditions_total_partial"], "nesting": True, "modes": [{"name": "c06", "quick_n": 1500, "thorough_n": 12000, "shard": 150, "profiles": ["dev", "release"]}]},
+    "C06": {"theorems": ["C06_tokenizer_total_partial", "C06_preconditions_total_partial", "C06_flat_parse_never_panics", "C06_parsed_flat_expressions_evaluate", "C06_deep_parse_never_panics"], "nesting": True, "modes": [{"name": "c06", "quick_n": 1500, "thorough_n": 12000, "shard": 150, "profiles": ["dev", "release"]}]},
     "C16": {"extra_vo": ["Corr/ValDriver.vo"], "theorems": ["C16_int_add_sub_mul", "C16_int_div_rem", "C16_int_shifts_and_powers", "C16_int_results_in_range", "C16_promotion", "C16_cross_kind_compare", "C16_error_propagates", "C16_error_propagates_unary", "C16_if_else"], "prim_floats": True, "modes": [{"name": "val", "quick_n": 1, "thorough_n": 1, "shard": 6500}]},
     "C17": {"extra_vo": ["Corr/ValDriver.vo"], "theorems": ["C17_binary_total", "C17_dangerous_points", "C17_neg_abs"], "prim_floats": True, "modes": [{"name": "val", "quick_n": 1, "thorough_n": 1, "shard": 6500, "profiles": ["dev", "release"]}]},
     "C19": {"theorems": ["C19_table_shape"], "prim_floats": True, "level": "other", "modes": [{"name": "c19", "quick_n": 1, "thorough_n": 1, "shard": 600}]},
